@@ -5,6 +5,7 @@ import (
 	"fmt"
 	"runtime"
 	"sync/atomic"
+	"time"
 
 	"cosmossdk.io/math"
 	sdk "github.com/cosmos/cosmos-sdk/types"
@@ -31,6 +32,17 @@ type lockCfg struct {
 	InitialReward int64    `json:"initial_reward"`
 	Remain        string   `json:"remain"`
 	Candidates    int      `json:"candidates"` // number of keys in the alphabet (>= len(Powers))
+	// non-initial corners: v0 additionally holds V0Tk2 of the second token; Jailed lists further
+	// genesis validators (keys after the active ones, i.e. the "candidate" of the menus) that start
+	// in jail for JailSecs with the given holdings and no voting power
+	V0Tk2    string     `json:"v0_tk2,omitempty"`
+	Jailed   []jailSpec `json:"jailed,omitempty"`
+	JailSecs int64      `json:"jail_secs,omitempty"`
+}
+
+type jailSpec struct {
+	Btc string `json:"btc"`
+	Tk2 string `json:"tk2,omitempty"`
 }
 
 var tk2Addr = common.HexToAddress("0x00000000000000000000000000000000000000a2")
@@ -40,6 +52,22 @@ func (c lockCfg) genesis() *sim.GenesisCfg {
 	for i := range cfg.Vals {
 		cfg.Vals[i].Power = c.Powers[i]
 		cfg.Vals[i].Locking = sdk.NewCoins(sdk.NewCoin("btc", theta.MulRaw(int64(c.Powers[i]))))
+	}
+	if c.V0Tk2 != "" {
+		a, _ := math.NewIntFromString(c.V0Tk2)
+		cfg.Vals[0].Locking = cfg.Vals[0].Locking.Add(sdk.NewCoin(lockingtypes.TokenDenom(tk2Addr), a))
+		cfg.Vals[0].Power += a.MulRaw(int64(c.Tk2Weight)).Quo(theta).Uint64()
+	}
+	for i, j := range c.Jailed {
+		coins := sdk.NewCoins()
+		if a, ok := math.NewIntFromString(j.Btc); ok && a.IsPositive() {
+			coins = coins.Add(sdk.NewCoin("btc", a))
+		}
+		if a, ok := math.NewIntFromString(j.Tk2); ok && a.IsPositive() {
+			coins = coins.Add(sdk.NewCoin(lockingtypes.TokenDenom(tk2Addr), a))
+		}
+		cfg.Vals = append(cfg.Vals, sim.ValSpec{Key: sim.NewKey(fmt.Sprintf("cand-%d", len(c.Powers)+i)), Status: lockingtypes.Downgrade,
+			Locking: coins, JailedUntil: cfg.Time.Add(time.Duration(c.JailSecs) * time.Second)})
 	}
 	cfg.LockingParams.MaxValidators = c.MaxValidators
 	if c.InitialReward > 0 {
